@@ -151,6 +151,7 @@ class Program(object):
         self.defs = {}         # name -> body (list of nodes)
         self.def_order = []
         self.main = []
+        self.nested = False    # a definition inside a definition / control structure
 
     def names(self):
         return set(self.variables) | set(self.inputs) | set(n for n, _ in self.outputs) | set(self.defs)
@@ -213,6 +214,10 @@ class _Parser(object):
                     raise CompileError("missing name in word definition")
                 name = t[pos + 1]
                 self.check_new_name(name)
+                # CHOICE: a definition may appear inside another definition or a control structure; it is compiled
+                # when met and defines a global word (lines 1798-1859).  Standard Forth has no nested definitions.
+                if not top:
+                    prog.nested = True
                 close = self.find_close(pos + 1, stop, (":",), (";",), "definition")
                 # the word is known while its own body is compiled (recursion by name, line 1838)
                 prog.defs[name] = None
@@ -468,6 +473,10 @@ class RefMachine(object):
         self.budget = self.budget0
         self.last_tag = "begin"
         self.hazard_at = None
+        self.exits = 0         # executed 'exit' words so far (recorded in the trace)
+        self.marks = set()     # noteworthy events of this execution, for reports (e.g. "exit-under-do")
+        if self.p.nested:
+            self.marks.add("nested-definition")
         self.pre = ()          # top of the stack (<= 3 cells) before the event being executed
         self.hazards = set()   # operations that are traps/undefined behaviour in C++ (the check isolates them)
         self.loop_incs = 0     # completed do-loop iterations so far (recorded in the trace)
@@ -517,7 +526,7 @@ class RefMachine(object):
         """Record the observable state after an event if it changed (consecutive duplicates collapse)."""
         bw = self.body_words()
         if not self.trace or self.trace[-1][0] != bw:
-            self.trace.append((bw, tag, self.loop_incs, self.pre))
+            self.trace.append((bw, tag, self.loop_incs, self.pre, self.exits))
 
     # -------------------------------------------------------------- stack helpers
     def need(self, n):
@@ -572,8 +581,18 @@ class RefMachine(object):
             return E["not_ready"]
         if self.error:
             return self.error
-        # a call runs the word on the current stack and comes back to where the machine was (lines 1228-1255);
-        # the recursion limit is not checked for this first level (line 1238)
+        # a call runs the word on the current stack and comes back to where the machine was (lines 1228-1255).
+        # The word is one more nested segment, so at the recursion limit it must fail like any other call; the C++
+        # pushes it unchecked (line 1238) and writes past its return-stack arrays, hence the hazard mark.
+        if self.depth >= self.rec_max:
+            self.hazards.add("call-at-max-depth")
+            self.hazard_at = "call"
+            self.error = E["recursion_depth_exceeded"]
+            self.note("fault:recursion_depth_exceeded")
+            return self.error
+        if len(self.frames) > 1 and self.frames[-1].kind == "seg" and self.frames[-1].pc == len(self.frames[-1].body) \
+                and self.frames[-2].kind == "doctl":
+            self.marks.add("call-at-loop-end")     # paused on the last word of a do-loop body
         self.targets.append(len(self.frames))
         fr = _Frame("word", self.p.defs[name], 1, defname=name)
         self.depth += 1
@@ -617,6 +636,8 @@ class RefMachine(object):
                 fr.pc += 1
                 op = node[0]
                 if op == "pause":
+                    if fr.pc == len(fr.body) and len(frames) > 1 and frames[-2].kind == "doctl" and frames[-2].b:
+                        self.marks.add("pause-before-+loop")
                     # finished enclosing frames are left to the next resume, except that a pause at the very
                     # end of what is being run also ends it (lines 3015-3039)
                     self._unwind_finished(target)
@@ -738,13 +759,16 @@ class RefMachine(object):
             self.push_frame(_Frame("whilectl", [], 0, a=node[1], b=node[2]))
         elif op == "exit":
             # leave the current word (or the program); loops of that word are discarded
-            frames = self.frames
+            self.exits += 1
             while True:
                 top = self.pop_frame()
                 if top.kind == "doctl":
                     self.loops.pop()
+                    self.marks.add("exit-in-do")
                 if top.kind in ("word", "main"):
                     break
+            if any(f.kind == "doctl" for f in self.frames):
+                self.marks.add("exit-under-do")
         elif op == "halt":
             raise Fault(E["user_halt"])
         elif op == "put":
